@@ -93,6 +93,8 @@ def confirm(path, engines, times=3, hang_is_bad=True):
         res.append(r)
         if r[0] == "hang" and not hang_is_bad:
             break  # no point in burning the time limit again
+        if hang_is_bad and sum(1 for x in res if x[0] == "hang") >= 2:
+            break  # the campaign run and two replays exceeded the limit: three observations
     bad = [r for r in res if r[0] in ("violation", "crash") or (r[0] == "hang" and hang_is_bad)]
     return len(bad), (bad[0][1] if bad else res[0][1])
 
@@ -227,6 +229,7 @@ def run_check(pid, tier, seed, only_replay=None):
     with ThreadPoolExecutor(workers) as ex:
         results = list(ex.map(run_shard, shard_cmds))
 
+    pending = []  # (failing case file, job) - confirmed below, in parallel (a case that hangs costs its time limit per replay)
     for (j, out, cmd, env, to), rc, so, se, dt in results:
         st = os.path.join(out, "stats.json")
         if os.path.exists(st):
@@ -265,7 +268,17 @@ def run_check(pid, tier, seed, only_replay=None):
             add_header_line(fpath, "variant", j["variant"])
             if j.get("threads", 1) != 1:
                 add_header_line(fpath, "threads", str(j["threads"]))
-            n, msg = confirm(fpath, engines, hang_is_bad=bool(spec.get("claims_termination")))
+            pending.append(fpath)
+
+    for fpath in pending:  # build the replay engines once, before the pool
+        h = parse_case_header(fpath)
+        key = (h.get("engine"), h.get("variant", "san"))
+        if key[0] and key not in engines:
+            engines[key] = build.ensure_engine(key[0], key[1], extra_flags=['-DVERIF_VARIANT="%s"' % key[1]])
+    with ThreadPoolExecutor(max(1, min(workers, 8))) as ex:
+        confirmed = list(ex.map(lambda fp: confirm(fp, engines, hang_is_bad=bool(spec.get("claims_termination"))), pending))
+    if True:
+        for fpath, (n, msg) in zip(pending, confirmed):
             hdr = parse_case_header(fpath)
             if n == 0 and "per-case time limit" in (msg or ""):
                 keep = save_violation(pid, fpath)
